@@ -155,6 +155,49 @@ def run_case(rng, tier, case):
             case.check('rename.in_place_on_used_objects_same_as_fresh', d_ip is None, renaming=maps, diff=d_ip)
         except Exception as e:
             case.check('rename.in_place_on_used_objects_same_as_fresh', False, renaming=maps, error='%s: %s' % (type(e).__name__, str(e)[:160]))
+    # ---------------- the same RESULT read out through a portfolio that lists the same asset objects in another order (plain result / result of the
+    #                  two-stage stochastic program): the output tables identify assets by name - same columns, same numbers
+    if rng.random() < 0.5 and not mip and len(r0.built.portfolio.assets) > 1:
+        try:
+            import eaopack.io as eio
+            import eaopack.stoch_lin_prog as SLP
+            from eaopack.portfolio import Portfolio
+            from ..spec import build
+            with env.quiet(), attach.paused():
+                bq = build(spec); Pq, tgq = bq.portfolio, bq.timegrid
+                opq = Pq.setup_optim_problem(bq.prices, tgq)
+                slp_mode = rng.random() < 0.6 and tgq.T > 2
+                if slp_mode:
+                    kq = int(rng.integers(1, tgq.T))
+                    smp = [{q_: np.asarray(v_, float) for q_, v_ in gen.gen_prices(rng, tgq.T, sorted(spec['prices']), cap_levels=spec.get('_cap_levels')).items()} for _ in range(int(rng.integers(1, 4)))]
+                    opq = SLP.make_slp(opq, Pq, tgq, tgq.timepoints[kq], smp)
+                resq = opq.optimize()
+                if not isinstance(resq, str):
+                    out_a = eio.extract_output(Pq, opq, resq, bq.prices)
+                    order = [int(i) for i in rng.permutation(len(Pq.assets))]
+                    if order == sorted(order):
+                        order = order[1:] + order[:1]
+                    Pq2 = Portfolio([Pq.assets[i] for i in order])
+                    Pq2.set_timegrid(tgq)
+                    out_b = eio.extract_output(Pq2, opq, resq, bq.prices)
+            if not isinstance(resq, str):
+                case.feature('same_result_read_through_reordered_portfolio' + (':slp' if slp_mode else ''))
+                okq = True; badq = None
+                for tab in ('dispatch', 'DCF'):
+                    ta, tb = out_a[tab], out_b[tab]
+                    if set(ta.columns) != set(tb.columns):
+                        okq = False; badq = [tab, 'columns differ', sorted(set(map(str, ta.columns)) ^ set(map(str, tb.columns)))[:4]]; break
+                    for c_ in ta.columns:
+                        va = ta[c_].values.astype(float); vb = tb[c_].values.astype(float)
+                        if np.abs(va - vb).max() > 1e-9 * (1 + np.abs(va).max()):
+                            okq = False; badq = [tab, str(c_), float(np.abs(va - vb).max())]; break
+                    if not okq:
+                        break
+                case.check('permute.same_result_same_tables', okq, bad=badq, slp=slp_mode, order=order)
+        except AssertionError:
+            pass
+        except Exception as e:
+            case.event('reordered_readout_failed:' + type(e).__name__)
     # ---------------- permutation
     perm = [int(i) for i in rng.permutation(len(spec['assets']))]
     if perm == sorted(perm) and len(perm) > 1:
